@@ -549,6 +549,9 @@ def enum_members(e: ast.AST, enum: str, members: t.Sequence[str]) -> list[str] |
     if isinstance(e, (ast.Tuple, ast.List, ast.Set)) and e.elts:
         ms = [one(x) for x in e.elts]
         return ms if all(ms) else None  # type: ignore[return-value]
+    if isinstance(e, ast.Dict) and e.keys and all(k is not None for k in e.keys):  # `state in TABLE` tests the keys of a table indexed by the state
+        ms = [one(x) for x in e.keys]  # type: ignore[arg-type]
+        return ms if all(ms) else None  # type: ignore[return-value]
     return None
 
 
@@ -601,9 +604,12 @@ def state_test_parts(fi: FuncInfo, rd: ReachingDefs, test: ast.AST, node: Node, 
             rhs = roles.cls.attrs[rhs.attr]  # the same as a class-level constant
         ms = enum_members(rhs, roles.enum, roles.members)
         ok, snap = state_side(lhs)
-        if ok and ms is not None and (isinstance(rhs, (ast.Tuple, ast.List, ast.Set, ast.Call))):
+        if ok and ms is not None and (isinstance(rhs, (ast.Tuple, ast.List, ast.Set, ast.Call, ast.Dict))):
             return isinstance(op, ast.NotIn), set(ms), snap
     return None
+
+
+KEEP_STATE = "(unchanged)"
 
 
 class Typestate:
@@ -781,12 +787,15 @@ class Typestate:
             return self.repo.try_func(fq) if fq and fq.startswith("werkzeug") else None
         return None
 
-    def state_values(self, fi: FuncInfo, e: ast.AST, node: Node, stack: tuple, depth: int = 0) -> set[str] | None:
+    def state_values(self, fi: FuncInfo, e: ast.AST, node: Node, stack: tuple, depth: int = 0, keep_at: Node | None = None) -> set[str] | None:
         """protocol-state members an expression can evaluate to: a member, a conditional expression / a selection from a literal
         table of members, a local (every binding that reaches), a parameter (the argument of the call being followed), the
-        result of a helper of the class or module (every return).  None = something else."""
+        result of a helper of the class or module (every return).  None = something else.  With `keep_at` (the node of the assignment
+        to the state) the state attribute itself, read in that very statement, stands for "stays as it is" (KEEP_STATE)."""
         if depth > 8:
             return None
+        if keep_at is not None and node is keep_at and is_self_attr(e, self.r.state):
+            return {KEEP_STATE}
         while isinstance(e, ast.Call) and (dotted(e.func) or "").endswith("cast") and len(e.args) == 2:
             e = e.args[1]
         m = self._member(e)
@@ -802,15 +811,15 @@ class Typestate:
             return out or None
 
         if isinstance(e, ast.IfExp):
-            return union(self.state_values(fi, x, node, stack, depth + 1) for x in (e.body, e.orelse))
+            return union(self.state_values(fi, x, node, stack, depth + 1, keep_at) for x in (e.body, e.orelse))
         if isinstance(e, ast.NamedExpr):
-            return self.state_values(fi, e.value, node, stack, depth + 1)
+            return self.state_values(fi, e.value, node, stack, depth + 1, keep_at)
         if isinstance(e, ast.Subscript):
             table = e.value
             if isinstance(table, (ast.Tuple, ast.List)) and table.elts:
-                return union(self.state_values(fi, x, node, stack, depth + 1) for x in table.elts)
+                return union(self.state_values(fi, x, node, stack, depth + 1, keep_at) for x in table.elts)
             if isinstance(table, ast.Dict) and table.values and all(k is not None for k in table.keys):
-                return union(self.state_values(fi, x, node, stack, depth + 1) for x in table.values)
+                return union(self.state_values(fi, x, node, stack, depth + 1, keep_at) for x in table.values)
             return None
         if isinstance(e, ast.Name):
             defs = self.rd_of(fi).reaching(node, e.id)
@@ -869,14 +878,14 @@ class Typestate:
                     raise AnalysisError(f"{fi.loc(a)}: tuple assignment to the protocol state / search offset is not modelled")
                 continue
             if is_self_attr(tg, self.r.state):
-                vals = self.state_values(fi, value, n, tuple(self._stack)) if value is not None else None
+                vals = self.state_values(fi, value, n, tuple(self._stack), keep_at=n) if value is not None else None
                 if not vals:
                     raise AnalysisError(f"{fi.loc(a)}: `{norm(a)}` assigns something other than a {self.r.enum} member")
                 ms = sorted(vals)
                 k = self.key(fi, a)
                 self.stmts[k] = (fi, a, "state:=" + "|".join(ms))  # type: ignore[arg-type]
                 self.stmt_arrivals.setdefault(k, set()).update(facts)
-                facts = frozenset().union(*[self._stale(facts, k, m, change_state=True) for m in ms])
+                facts = frozenset().union(*[facts if m == KEEP_STATE else self._stale(facts, k, m, change_state=True) for m in ms])
             elif is_self_attr(tg, self.r.offset):
                 assert value is not None
                 k = self.key(fi, a)
@@ -1935,8 +1944,8 @@ class MiniEval:
             if fn is None:
                 raise _Unmodelled(f"`{norm(c)[:60]}`")
             args, kwargs = self._args(c, env, fi, depth)
-            if f.id in ("min", "max", "sorted") and kwargs:
-                raise _Unmodelled(f"`{norm(c)[:60]}`")
+            if f.id in ("min", "max", "sorted") and set(kwargs) - ({"default"} if f.id != "sorted" else {"reverse"}):
+                raise _Unmodelled(f"`{norm(c)[:60]}`")  # a `key=` callable is not modelled
             if not all(isinstance(a, _DATA) for a in list(args) + list(kwargs.values())):
                 raise _Unmodelled(f"`{norm(c)[:60]}`")
             return self._apply(fn, args, kwargs, c)
@@ -1966,6 +1975,8 @@ class MiniEval:
 class AnchorTable:
     """results of a hold-back anchor helper for every argument over `letters` (CR, LF, the bytes the helper names, one filler that
     stands for every other byte) up to a length that covers every order and adjacency of the last line-break bytes"""
+
+    start_param: str | None = None  # the parameter that names the start of the scanned region, when the anchor takes one
 
     def __init__(self, fi: FuncInfo, letters: list[int], filler: int, results: dict[bytes, int]):
         self.fi, self.letters, self.filler, self.results = fi, letters, filler, results
@@ -2025,7 +2036,14 @@ def _anchor_table(fi: FuncInfo) -> AnchorTable | None:
     pos = [x.arg for x in a.posonlyargs + a.args]
     if fi.cls is not None and "staticmethod" not in decs and pos:
         pos = pos[1:]
-    if len(pos) != 1 or a.vararg or a.kwarg or a.kwonlyargs or isinstance(fi.node, ast.AsyncFunctionDef):
+    # a second parameter (positional or keyword-only) may name where the scanned region starts: `anchor(data, start)` instead of
+    # `anchor(data[start:]) + start`.  It is accepted when the table confirms exactly that reading (see below).
+    start_param: str | None = None
+    if len(pos) == 2 and not a.kwonlyargs:
+        start_param = pos[1]
+    elif len(pos) == 1 and len(a.kwonlyargs) == 1:
+        start_param = a.kwonlyargs[0].arg
+    if len(pos) not in (1, 2) or (len(pos) == 2 and a.kwonlyargs) or len(a.kwonlyargs) > 1 or a.vararg or a.kwarg or isinstance(fi.node, ast.AsyncFunctionDef):
         return None
     named: set[int] = set()
     for x in ast.walk(fi.node):
@@ -2048,10 +2066,17 @@ def _anchor_table(fi: FuncInfo) -> AnchorTable | None:
             for tup in itertools.product(letters, repeat=n):
                 s = bytes(tup)
                 me.steps = 0
-                v = me.call(fi, [s])
+                v = me.call(fi, [s], {start_param: 0} if start_param else None)
                 if not isinstance(v, int) or isinstance(v, bool) or not -1 <= v <= len(s):
                     return None
                 results[s] = v
+        if start_param:
+            # anchor(data, k) == anchor(data[k:], 0) + k for every table argument and every k: the function of the region alone
+            for s, v in list(results.items()):
+                for k in range(1, len(s) + 1):
+                    me.steps = 0
+                    if me.call(fi, [s], {start_param: k}) != results[s[k:]] + k:
+                        return None
     except (_Unmodelled, _PyRaise):
         return None
     by_len: dict[int, set[int]] = {}
@@ -2059,7 +2084,9 @@ def _anchor_table(fi: FuncInfo) -> AnchorTable | None:
         by_len.setdefault(len(s), set()).add(v)
     if all(len(vs) == 1 for vs in by_len.values()):
         return None  # a function of the length alone: not an anchor
-    return AnchorTable(fi, letters, filler, results)
+    tab = AnchorTable(fi, letters, filler, results)
+    tab.start_param = start_param
+    return tab
 
 
 # ---------------------------------------------------------------------------
@@ -2988,6 +3015,22 @@ class PathExec:
             return v
         if isinstance(e, (ast.Lambda, ast.ListComp, ast.SetComp, ast.DictComp, ast.GeneratorExp)):
             return e
+        if isinstance(e, ast.Subscript) and isinstance(e.ctx, ast.Load) and not isinstance(e.slice, (ast.Slice, ast.Constant)):
+            # `TABLE[self.state]` with TABLE a literal dict keyed by the members (written in place, or a constant of the module / class):
+            # the entry of the current state
+            m = self._is_member(self.expand(e.slice, fi, env, cv, ps))  # type: ignore[arg-type]
+            table: ast.AST | None = e.value
+            if isinstance(table, ast.Name) and table.id not in env and table.id not in fi.params \
+                    and not any(isinstance(x, ast.Name) and x.id == table.id and isinstance(x.ctx, ast.Store) for x in walk_no_nested(fi.node)):  # type: ignore[union-attr]
+                vs = fi.module.assigns.get(table.id)
+                table = vs[0] if vs and len(vs) == 1 else None
+            elif isinstance(table, ast.Attribute) and isinstance(table.value, ast.Name) and table.value.id in ("self", "cls", self.r.cls.name) and table.attr in self.r.cls.attrs \
+                    and not any(is_self_attr(x, table.attr) and isinstance(x.ctx, ast.Store) for f in self.r.cls.methods.values() for x in walk_no_nested(f.node)):  # type: ignore[attr-defined]
+                table = self.r.cls.attrs[table.attr]
+            if m is not None and isinstance(table, ast.Dict) and all(k is not None and self._is_member(k) is not None for k in table.keys):
+                hits = [v for k, v in zip(table.keys, table.values) if self._is_member(k) == m]  # type: ignore[arg-type]
+                if len(hits) == 1 and (isinstance(hits[0], ast.Constant) or self._is_member(hits[0]) is not None):
+                    return hits[0]
         if isinstance(e, ast.Subscript) and isinstance(e.ctx, ast.Load) and isinstance(e.slice, ast.Constant) and isinstance(e.slice.value, int):
             base = self.expand(e.value, fi, env, cv, ps)
             if isinstance(base, ast.Tuple) and -len(base.elts) <= e.slice.value < len(base.elts) and not any(isinstance(x, ast.Starred) for x in base.elts):
@@ -3241,13 +3284,14 @@ class PathExec:
                 for b, q2 in self.truth(x.test, fi, q):
                     settle(x.body if b else x.orelse, q2)
             else:
-                vals = self.ts.state_values(fi, value, n, tuple(stack))
+                vals = self.ts.state_values(fi, value, n, tuple(stack), keep_at=n)
                 if not vals:
                     raise AnalysisError(f"{fi.loc(a)}: `{norm(a)}` assigns something other than a {self.r.enum} member")
                 for m2 in sorted(vals):
                     q2 = q.copy()
-                    q2.state = m2
-                    q2.events += (("state", m2),)
+                    if m2 != KEEP_STATE:
+                        q2.state = m2
+                        q2.events += (("state", m2),)
                     outs.append(q2)
 
         settle(v, p)
@@ -3365,6 +3409,7 @@ class FieldFlow:
     ACC = {"append", "write", "extend"}
     IDENT = {"bytes", "bytearray", "memoryview"}
     BYTEWISE = {"upper", "lower", "swapcase", "translate", "hex"}  # c(a + b) == c(a) + c(b): not chunk dependent
+    COPY = {"tobytes", "copy", "__bytes__", "toreadonly"}  # the same bytes again
     QUERY = {"startswith", "endswith", "find", "rfind", "index", "rindex", "count", "isascii", "isalnum", "isalpha", "isdigit", "isspace", "islower", "isupper", "istitle", "__len__"}
 
     def __init__(self, repo, flow: "EventFlow", owners: list[tuple[FuncInfo, str]]):
@@ -3549,7 +3594,7 @@ class FieldFlow:
         if isinstance(par, ast.Attribute) and par.value is e:
             gp = getattr(par, "_parent", None)
             if isinstance(gp, ast.Call) and gp.func is par:
-                if par.attr in self.BYTEWISE:
+                if par.attr in self.BYTEWISE or (par.attr in self.COPY and not gp.args and not gp.keywords):
                     self.use(fi, gp, via, rec, depth + 1)
                 elif par.attr in self.QUERY:
                     rec["neutral"].append(norm(gp))
@@ -3625,42 +3670,135 @@ class FieldFlow:
                             out[f"{fi.fq}:{r}"] = (fi, d.stmt or v)
         return out
 
-    def joins(self) -> list[dict[str, t.Any]]:
-        recv = self.list_receivers()
-        out = []
-        for key, (fi, _) in sorted(recv.items()):
-            r = key.rsplit(":", 1)[1]
-            for c in walk_no_nested(fi.node):
-                if not (isinstance(c, ast.Call) and isinstance(c.func, ast.Attribute) and c.func.attr == "join" and len(c.args) == 1 and not c.keywords):
-                    continue
-                arg = _uncast(c.args[0])
-                if not any(isinstance(x, ast.Name) and x.id == r for x in [arg, *ast.walk(arg)]):  # type: ignore[arg-type]
-                    continue
-                sep = c.func.value
-                if isinstance(sep, ast.Name) and sep.id not in self.flow.locals_of(fi):
-                    vs = fi.module.assigns.get(sep.id)
-                    if vs and len(vs) == 1:
-                        sep = vs[0]
-                if isinstance(sep, ast.Constant) and isinstance(sep.value, (bytes, str)):
-                    sep_ok: bool | None = len(sep.value) == 0
-                elif isinstance(sep, ast.Call) and dotted(sep.func) in ("bytes", "str", "bytearray") and not sep.args and not sep.keywords:
-                    sep_ok = True
-                else:
-                    sep_ok = None
-                elem: str | None = ""  # "" = the elements as they are, text = the transformation, None = not understood
-                if isinstance(arg, ast.Name):
-                    elem = ""
-                elif isinstance(arg, (ast.GeneratorExp, ast.ListComp)) and len(arg.generators) == 1 and isinstance(arg.generators[0].target, ast.Name) \
-                        and isinstance(_uncast(arg.generators[0].iter), ast.Name) and _uncast(arg.generators[0].iter).id == r:  # type: ignore[union-attr]
-                    g = arg.generators[0]
-                    elt = _uncast(arg.elt)
-                    while isinstance(elt, ast.Call) and dotted(elt.func) in self.IDENT and len(elt.args) == 1:
-                        elt = _uncast(elt.args[0])
-                    if isinstance(elt, ast.Name) and elt.id == g.target.id and not g.ifs:  # type: ignore[union-attr]
-                        elem = ""
-                    else:
-                        elem = norm(arg.elt) + ("" if not g.ifs else " if " + " if ".join(norm(i) for i in g.ifs))
-                else:
-                    elem = None
-                out.append({"fi": fi, "call": c, "receiver": r, "sep": sep, "sep_ok": sep_ok, "elem": elem})
+    def list_holders(self, fi0: FuncInfo, r0: str) -> list[tuple[FuncInfo, str]]:
+        """the (function, name) pairs under which the collecting list is known: the local itself, a plain copy of it (`pieces = container`,
+        casts looked through), the parameter of a package helper / nested function it is passed as (at any depth, also by keyword), and the
+        same name inside a nested function that reads it through its closure"""
+        out: list[tuple[FuncInfo, str]] = [(fi0, r0)]
+        i = 0
+        while i < len(out) and i < 24:
+            fi, r = out[i]
+            i += 1
+
+            def add(f2: FuncInfo, name: str) -> None:
+                if all(f2.fq != o[0].fq or name != o[1] for o in out):
+                    out.append((f2, name))
+
+            def is_r(x: ast.AST | None) -> bool:
+                x = _uncast(x)
+                while isinstance(x, ast.NamedExpr):
+                    x = _uncast(x.value)
+                return isinstance(x, ast.Name) and x.id == r
+
+            for x in walk_no_nested(fi.node):
+                if isinstance(x, (ast.Assign, ast.AnnAssign)) and x.value is not None and is_r(x.value):
+                    for tg in (x.targets if isinstance(x, ast.Assign) else [x.target]):
+                        if isinstance(tg, ast.Name):
+                            add(fi, tg.id)
+                elif isinstance(x, ast.NamedExpr) and is_r(x.value):
+                    add(fi, x.target.id)
+                elif isinstance(x, ast.Call):
+                    callee = self.flow.callee(fi, x)
+                    if callee is None:
+                        continue
+                    binding = bind_args(callee, x) or {}
+                    for p, a in binding.items():
+                        if is_r(a) and p in callee.params:
+                            add(callee, p)
+                    if "<locals>" in callee.qualname and r not in callee.params:
+                        stored = {y.id for y in walk_no_nested(callee.node) if isinstance(y, ast.Name) and isinstance(y.ctx, (ast.Store, ast.Del))}
+                        if r not in stored and any(isinstance(y, ast.Name) and y.id == r for y in walk_no_nested(callee.node)):
+                            add(callee, r)
         return out
+
+    def joins(self) -> list[dict[str, t.Any]]:
+        """the `.join(...)` calls that consume a list the payloads are collected in, wherever the list has travelled to (see list_holders)"""
+        recv = self.list_receivers()
+        out: list[dict[str, t.Any]] = []
+        done: set[int] = set()
+        for key, (fi0, _) in sorted(recv.items()):
+            r0 = key.rsplit(":", 1)[1]
+            for fi, r in self.list_holders(fi0, r0):
+                for c in walk_no_nested(fi.node):
+                    if id(c) in done or not (isinstance(c, ast.Call) and isinstance(c.func, ast.Attribute) and c.func.attr == "join" and len(c.args) == 1 and not c.keywords):
+                        continue
+                    arg = _uncast(c.args[0])
+                    if not any(isinstance(x, ast.Name) and x.id == r for x in [arg, *ast.walk(arg)]):  # type: ignore[arg-type]
+                        continue
+                    done.add(id(c))
+                    if all(fi is not s_ for s_ in self.scope):
+                        self.scope.append(fi)
+                    out.append(self._join_record(fi, c, arg, r, r0))  # type: ignore[arg-type]
+        return out
+
+    def _join_record(self, fi: FuncInfo, c: ast.Call, arg: ast.AST, r: str, label: str) -> dict[str, t.Any]:
+        sep = c.func.value  # type: ignore[attr-defined]
+        if isinstance(sep, ast.Name) and sep.id not in self.flow.locals_of(fi):
+            vs = fi.module.assigns.get(sep.id)
+            if vs and len(vs) == 1:
+                sep = vs[0]
+        if isinstance(sep, ast.Constant) and isinstance(sep.value, (bytes, str)):
+            sep_ok: bool | None = len(sep.value) == 0
+        elif isinstance(sep, ast.Call) and dotted(sep.func) in ("bytes", "str", "bytearray") and not sep.args and not sep.keywords:
+            sep_ok = True
+        else:
+            sep_ok = None
+        elem: str | None = ""  # "" = the elements as they are, text = the transformation, None = not understood
+
+        def unwrap(x: ast.AST | None) -> ast.AST | None:
+            """copies that keep the elements and their order: tuple(x) / list(x) / iter(x), casts"""
+            x = _uncast(x)
+            while isinstance(x, ast.Call) and dotted(x.func) in ("tuple", "list", "iter") and len(x.args) == 1 and not x.keywords:
+                x = _uncast(x.args[0])
+            return x
+
+        def piece(elt: ast.AST | None, var: str) -> str | None:
+            """what is done to one element: "" = nothing (copies, byte-wise maps), text = a method / slice of the piece, None = not understood"""
+            elt = _uncast(elt)
+            while True:
+                if isinstance(elt, ast.Call) and dotted(elt.func) in self.IDENT and len(elt.args) == 1 and not elt.keywords:
+                    elt = _uncast(elt.args[0])
+                elif isinstance(elt, ast.Call) and isinstance(elt.func, ast.Attribute) and elt.func.attr in self.BYTEWISE | self.COPY:
+                    elt = _uncast(elt.func.value)
+                else:
+                    break
+            if isinstance(elt, ast.Name) and elt.id == var:
+                return ""
+            x = elt
+            while isinstance(x, (ast.Call, ast.Attribute, ast.Subscript)):  # a chain of methods / slices that starts at the piece
+                x = _uncast(x.func if isinstance(x, ast.Call) else x.value)
+            if isinstance(x, ast.Name) and x.id == var and isinstance(elt, (ast.Call, ast.Subscript)) and \
+                    (isinstance(elt, ast.Subscript) or (isinstance(elt.func, ast.Attribute) and elt.func.attr not in self.QUERY)):
+                return norm(elt)
+            return None
+
+        arg = unwrap(arg)  # type: ignore[assignment]
+        if isinstance(arg, ast.Name):
+            elem = ""
+        elif isinstance(arg, ast.Call) and dotted(arg.func) == "map" and len(arg.args) == 2 and not arg.keywords \
+                and isinstance(unwrap(arg.args[1]), ast.Name) and unwrap(arg.args[1]).id == r:  # type: ignore[union-attr]
+            f = dotted(arg.args[0]) or ""
+            if f in self.IDENT or (f.split(".")[0] in ("bytes", "bytearray") and f.split(".")[-1] in self.BYTEWISE):
+                elem = ""
+            elif f.split(".")[0] in ("bytes", "bytearray") and "." in f and f.split(".")[-1] not in self.QUERY:
+                elem = f"{f}(piece)"  # map(bytes.strip, pieces)
+            else:
+                elem = None
+        elif isinstance(arg, (ast.GeneratorExp, ast.ListComp)) and len(arg.generators) == 1 and isinstance(arg.generators[0].target, ast.Name) \
+                and isinstance(unwrap(arg.generators[0].iter), ast.Name) and unwrap(arg.generators[0].iter).id == r:  # type: ignore[union-attr]
+            g = arg.generators[0]
+            var = g.target.id  # type: ignore[union-attr]
+            elem = piece(arg.elt, var)
+            for cond in g.ifs:
+                q = _uncast(cond)
+                if isinstance(q, ast.Call) and dotted(q.func) in ("len", "bool") and len(q.args) == 1:
+                    q = _uncast(q.args[0])
+                if isinstance(q, ast.Compare) and len(q.ops) == 1 and isinstance(q.ops[0], (ast.NotEq, ast.Gt)) and isinstance(q.comparators[0], ast.Constant) and q.comparators[0].value in (b"", 0):
+                    q = _uncast(q.left)
+                    if isinstance(q, ast.Call) and dotted(q.func) == "len" and len(q.args) == 1:
+                        q = _uncast(q.args[0])
+                if not (isinstance(q, ast.Name) and q.id == var):
+                    elem = None  # a filter other than "drop the empty pieces" (which changes nothing when nothing is put in between)
+        else:
+            elem = None
+        return {"fi": fi, "call": c, "receiver": label, "sep": sep, "sep_ok": sep_ok, "elem": elem}
